@@ -455,3 +455,64 @@ add("C01", "benign: reorder entries of Parser.COMPARISON", P,
     "        TokenType.GT: exp.GT,\n        TokenType.GTE: exp.GTE,\n", "        TokenType.GTE: exp.GTE,\n        TokenType.GT: exp.GT,\n", "silent")
 add("C01", "benign: handler for a class no parser builds", G,
     "    def uncache_sql(self, expression: exp.Uncache) -> str:\n", "    def verifnothing_sql(self, expression: exp.Expr) -> str:\n        return \"\"\n\n    def uncache_sql(self, expression: exp.Uncache) -> str:\n", "silent")
+
+# ------------------------------------------------------------------------------- C05
+add("C05", "_parse_csv loop stops consuming its separator", P,
+    "        while self._match(sep):\n            if isinstance(parse_result, exp.Expr):",
+    "        while self._match(sep, advance=False):\n            if isinstance(parse_result, exp.Expr):", "C05.a")
+add("C05", "delete break in _parse_properties", P,
+    "            if not prop:\n                break\n            for p in ensure_list(prop):",
+    "            if not prop:\n                pass\n            for p in ensure_list(prop):", "C05.a")
+add("C05", "revert SYSTEM_VERSIONING hang fix", P,
+    "                elif not self._match(TokenType.COMMA, advance=False):\n                    self.raise_error(\"Unexpected SYSTEM_VERSIONING option\")\n                    break\n", "", "C05.a")
+add("C05", "revert COPY parameters hang fix", P,
+    "            if self._index == index:\n                self.raise_error(\"Unable to parse COPY parameter\")\n                break\n", "", "C05.a")
+add("C05", "revert Trino ELSEIF hang fix", "sqlglot/parsers/trino.py",
+    "            tail = node\n\n            if self._index == index:\n                # Nothing was consumed (e.g. truncated input): the error has been recorded\n                break\n",
+    "            tail = node\n", "C05.a")
+add("C05", "tokenizer comment scan stops advancing", "sqlglot/tokenizer_core.py",
+    "            while not self._end and _peek != \"\\n\" and _peek != \"\\r\":\n                self._advance(alnum=True)\n",
+    "            while not self._end and _peek != \"\\n\" and _peek != \"\\r\":\n", "C05.a")
+add("C05", "retreat one token too far in a property parser", P,
+    "    def _parse_describe(self) -> exp.Describe:\n        kind = self._prev.text if self._match_set(self.CREATABLES) else None\n        style: str | None = (\n            self._prev.text.upper() if self._match_texts(self.DESCRIBE_STYLES) else None\n        )\n        if self._match(TokenType.DOT):\n            style = None\n            self._retreat(self._index - 2)",
+    "    def _parse_describe(self) -> exp.Describe:\n        kind = self._prev.text if self._match_set(self.CREATABLES) else None\n        style: str | None = (\n            self._prev.text.upper() if self._match_texts(self.DESCRIBE_STYLES) else None\n        )\n        if self._match(TokenType.DOT):\n            style = None\n            self._retreat(self._index - 3)", "C05.b")
+add("C05", "retreat to a computed forward position", P,
+    "        result = self.CONSTRAINT_PARSERS[constraint_key](self)\n        if not result:\n            self._retreat(index)",
+    "        result = self.CONSTRAINT_PARSERS[constraint_key](self)\n        if not result:\n            self._retreat(index + 1)", "C05.b")
+add("C05", "_try_parse stops restoring the index", P,
+    "        finally:\n            if not this or retreat:\n                self._retreat(index)\n            self.error_level = error_level",
+    "        finally:\n            self.error_level = error_level", "C05.b")
+add("C05", "remove the _match_set guard before a table lookup", P,
+    "        if self._match_set(self.RANGE_PARSERS):\n            expression = self.RANGE_PARSERS[self._prev.token_type](self, this)",
+    "        if self._curr:\n            self._advance()\n            expression = self.RANGE_PARSERS[self._prev.token_type](self, this)", "C05.c")
+add("C05", "match on TERM but index FACTOR", P,
+    "        while self._match_set(factor):\n", "        while self._match_set(self.TERM):\n", "silent")
+CATALOG.pop()
+add("C05", "match on one table, index another", P,
+    "        if self._match_texts(self.ALTER_ALTER_PARSERS):\n            return self.ALTER_ALTER_PARSERS[self._prev.text.upper()](self)",
+    "        if self._match_texts(self.ALTER_ALTER_PARSERS):\n            return self.ALTER_PARSERS[self._prev.text.upper()](self)", "C05.c")
+add("C05", "revert generator fall-through fix", G,
+    "            self.unsupported(f\"Unsupported expression type {expression.__class__.__name__}\")\n            sql = \"\"\n",
+    "            raise ValueError(f\"Unsupported expression type {expression.__class__.__name__}\")\n", "C05.d")
+add("C05", "raise KeyError in a _parse method", P,
+    "    def _parse_command(self) -> exp.Command:\n        self._warn_unsupported()",
+    "    def _parse_command(self) -> exp.Command:\n        if not self._prev:\n            raise KeyError(\"no command\")\n        self._warn_unsupported()", "C05.e")
+add("C05", "revert HASHBYTES arity fix", "sqlglot/parsers/tsql.py",
+    "    if len(args) != 2:\n        return exp.func(\"HASHBYTES\", *args)\n\n", "", "C05.f")
+add("C05", "drop the length guard of build_date_delta_with_interval", DIALECT,
+    "        if len(args) < 2:\n            return None\n", "", "C05.f")
+add("C05", "public tokenizer method scans outside the TokenError wrapper", "sqlglot/tokenizer_core.py",
+    "    def _scan(self, check_semicolon: bool = False) -> None:\n",
+    "    def rescan(self) -> list[Token]:\n        self._scan()\n        return self.tokens\n\n    def _scan(self, check_semicolon: bool = False) -> None:\n", "C05.g")
+add("C05", "benign: while True/break rewritten with a walrus condition", P,
+    "        while True:\n            if before:\n                prop = self._parse_property_before()\n            else:\n                prop = self._parse_property()\n            if not prop:\n                break\n            for p in ensure_list(prop):\n                properties.append(p)\n",
+    "        while prop := (self._parse_property_before() if before else self._parse_property()):\n            for p in ensure_list(prop):\n                properties.append(p)\n", "silent")
+add("C05", "benign: rename saved index local", P,
+    "        index = self._index\n        error_level = self.error_level\n        this: T | None = None\n",
+    "        start_index = self._index\n        error_level = self.error_level\n        this: T | None = None\n", "silent",
+    extra=[(P, "            if not this or retreat:\n                self._retreat(index)\n            self.error_level = error_level", "            if not this or retreat:\n                self._retreat(start_index)\n            self.error_level = error_level")])
+add("C05", "benign: replace args[0] by seq_get(args, 0)", "sqlglot/parsers/bigquery.py",
+    "        return exp.TsOrDsToTime(this=args[0])", "        return exp.TsOrDsToTime(this=seq_get(args, 0))", "silent")
+add("C05", "benign: raise a new ParseError subclass", P,
+    "    def _parse_command(self) -> exp.Command:\n        self._warn_unsupported()",
+    "    def _parse_command(self) -> exp.Command:\n        if self.max_nodes == -2:\n            raise ParseError(\"x\")\n        self._warn_unsupported()", "silent")
